@@ -162,12 +162,26 @@ func c16Child(scPath string) int {
 	u.Parse()
 	it := models.NewItem(uuid.New().String(), u, "")
 	it.SetSource(models.ItemSourceQueue)
-	if err := reactor.ReceiveInsert(it); err != nil {
-		res["insert_error"] = err.Error()
+	v2, f2 := "not-run", f1
+	if v1 == "stuck" {
+		// the reactor still tracks seeds although nothing moves: a second batch could not even be inserted
+		// once the tokens are used up; the first footprint already decides
+		res["second_batch"] = "skipped: the first batch never drained"
+	} else {
+		inserted := make(chan error, 1)
+		go func() { inserted <- reactor.ReceiveInsert(it) }()
+		select {
+		case err := <-inserted:
+			if err != nil {
+				res["insert_error"] = err.Error()
+			}
+		case <-time.After(60 * time.Second):
+			res["insert_error"] = "ReceiveInsert of the second hub did not return within 60 s"
+		}
+		time.Sleep(300 * time.Millisecond)
+		v2 = pr.waitQuiescent(7*time.Second, 14*time.Second, 400*time.Second)
+		f2 = takeFootprint()
 	}
-	time.Sleep(300 * time.Millisecond)
-	v2 := pr.waitQuiescent(7*time.Second, 14*time.Second, 400*time.Second)
-	f2 := takeFootprint()
 	n2 := pr.count("fin.notified")
 	res["verdict1"], res["verdict2"], res["after_n"], res["after_4n"], res["seeds_n"], res["seeds_4n"] = v1, v2, f1, f2, n1, n2
 	res["requests"] = pr.count("arch.do")
